@@ -104,10 +104,11 @@ type DebugSeqPoint struct {
 	EndCol int
 }
 
-// DebugRange represents the method's section in bytecode.
+// DebugRange represents the method's section in bytecode. A script can be
+// longer than 64 KiB, so 16 bits are not enough for an offset.
 type DebugRange struct {
-	Start uint16
-	End   uint16
+	Start uint32
+	End   uint32
 }
 
 // DebugParam represents the variable's name and type.
@@ -176,7 +177,7 @@ func (c *codegen) emitDebugInfo(contract []byte) *DebugInfo {
 			IsFunction: true,
 			Range: DebugRange{
 				Start: 0,
-				End:   uint16(c.initEndOffset),
+				End:   uint32(c.initEndOffset),
 			},
 			ReturnType:   "Void",
 			ReturnTypeSC: smartcontract.VoidType,
@@ -194,8 +195,8 @@ func (c *codegen) emitDebugInfo(contract []byte) *DebugInfo {
 			IsExported: true,
 			IsFunction: true,
 			Range: DebugRange{
-				Start: uint16(c.initEndOffset + 1),
-				End:   uint16(c.deployEndOffset),
+				Start: uint32(c.initEndOffset + 1),
+				End:   uint32(c.deployEndOffset),
 			},
 			Parameters: []DebugParam{
 				{
@@ -509,17 +510,17 @@ func (d *DebugRange) UnmarshalJSON(data []byte) error {
 	if err != nil {
 		return err
 	}
-	start, err := strconv.ParseUint(startS, 10, 16)
+	start, err := strconv.ParseUint(startS, 10, 32)
 	if err != nil {
 		return err
 	}
-	end, err := strconv.ParseUint(endS, 10, 16)
+	end, err := strconv.ParseUint(endS, 10, 32)
 	if err != nil {
 		return err
 	}
 
-	d.Start = uint16(start)
-	d.End = uint16(end)
+	d.Start = uint32(start)
+	d.End = uint32(end)
 
 	return nil
 }
